@@ -12,6 +12,29 @@ class EvalError(Exception):
     pass
 
 
+class NF(object):
+    """a non-finite value observed on the real code ('nan', 'inf', '-inf'): IEEE comparison semantics"""
+
+    def __init__(self, kind):
+        self.kind = kind
+
+    def _ord(self):
+        return {'inf': 1, '-inf': -1}.get(self.kind)
+
+
+def _cmp(a, b, op):
+    """IEEE comparison when a non-finite value is involved; None when both are finite"""
+    if not isinstance(a, NF) and not isinstance(b, NF):
+        return None
+    ka = a.kind if isinstance(a, NF) else None
+    kb = b.kind if isinstance(b, NF) else None
+    if ka == 'nan' or kb == 'nan':
+        return op == 'ne'
+    ra = a._ord() * 10 ** 400 if isinstance(a, NF) else a
+    rb = b._ord() * 10 ** 400 if isinstance(b, NF) else b
+    return {'eq': ra == rb, 'ne': ra != rb, 'lt': ra < rb, 'le': ra <= rb, 'gt': ra > rb, 'ge': ra >= rb}[op]
+
+
 def _close(a, b):
     if isinstance(a, bool) or isinstance(b, bool):
         return bool(a) == bool(b)
@@ -49,6 +72,8 @@ def geval(e, env, tolerant=True):
             if n not in env:
                 raise EvalError("unbound " + n)
             v = env[n]
+            if isinstance(v, str) and v in ('nan', 'inf', '-inf') and z3.is_real(t):
+                return NF(v)
             if isinstance(v, bool) or isinstance(v, str):
                 return v
             if isinstance(v, float):
@@ -70,6 +95,9 @@ def geval(e, env, tolerant=True):
             return ev(ch[1]) if ev(ch[0]) else ev(ch[2])
         if k in (z3.Z3_OP_EQ, z3.Z3_OP_IFF):
             a, b = ev(ch[0]), ev(ch[1])
+            nf = _cmp(a, b, 'eq')
+            if nf is not None:
+                return nf
             return _close(a, b) if tolerant else a == b
         if k == z3.Z3_OP_DISTINCT:
             vals = [ev(c) for c in ch]
@@ -80,16 +108,32 @@ def geval(e, env, tolerant=True):
             return True
         if k == z3.Z3_OP_LE:
             a, b = ev(ch[0]), ev(ch[1])
+            nf = _cmp(a, b, 'le')
+            if nf is not None:
+                return nf
             return a <= b or (tolerant and _close(a, b))
         if k == z3.Z3_OP_GE:
             a, b = ev(ch[0]), ev(ch[1])
+            nf = _cmp(a, b, 'ge')
+            if nf is not None:
+                return nf
             return a >= b or (tolerant and _close(a, b))
         if k == z3.Z3_OP_LT:
             a, b = ev(ch[0]), ev(ch[1])
+            nf = _cmp(a, b, 'lt')
+            if nf is not None:
+                return nf
             return a < b and not (tolerant and _close(a, b))
         if k == z3.Z3_OP_GT:
             a, b = ev(ch[0]), ev(ch[1])
+            nf = _cmp(a, b, 'gt')
+            if nf is not None:
+                return nf
             return a > b and not (tolerant and _close(a, b))
+        if k in (z3.Z3_OP_ADD, z3.Z3_OP_SUB, z3.Z3_OP_MUL, z3.Z3_OP_DIV, z3.Z3_OP_UMINUS):
+            vals = [ev(c) for c in ch]
+            if any(isinstance(v, NF) for v in vals):
+                return NF('nan')
         if k == z3.Z3_OP_ADD:
             return sum((ev(c) for c in ch), Fraction(0))
         if k == z3.Z3_OP_SUB:
